@@ -546,6 +546,10 @@ struct Runner<'a> {
     sys: Option<Sys>,
     ex: &'a mut Exec,
     trace: bool,
+    /// a panic escaped from the driver
+    poisoned: bool,
+    /// the case used the raw `take` / `reset` API on an id that no completion reported (see `taint`)
+    tainted: Option<String>,
 }
 
 impl Runner<'_> {
@@ -553,7 +557,7 @@ impl Runner<'_> {
     fn acquire(&mut self, mut b: BufferRef, src: Option<usize>) -> String {
         let sys = self.sys.as_mut().unwrap();
         let Some(id) = buf_id(&b) else {
-            self.ex.fail("C07:harness", "cannot read buffer_id from Debug of BufferRef");
+            fail(self.ex, &self.tainted, "C07:harness", "cannot read buffer_id from Debug of BufferRef");
             return "noid".into();
         };
         let len = b.len();
@@ -565,7 +569,7 @@ impl Runner<'_> {
         for (oid, h) in &sys.held {
             let disjoint = ptr + cap.max(1) <= h.ptr || h.ptr + h.cap.max(1) <= ptr;
             if *oid == id || !disjoint {
-                self.ex.fail(
+                fail(self.ex, &self.tainted, 
                     "C07:alias",
                     format!("two live handles alias: new id {id} cap {cap} overlaps live id {oid} cap {}", h.cap),
                 );
@@ -573,10 +577,10 @@ impl Runner<'_> {
         }
         // the pointer must be the one the slot table showed for this id at start
         if (id as usize) < sys.ptrs.len() && sys.ptrs[id as usize] != ptr {
-            self.ex.fail("C07:identity", format!("handle with id {id} points to a buffer that is not buffer {id}"));
+            fail(self.ex, &self.tainted, "C07:identity", format!("handle with id {id} points to a buffer that is not buffer {id}"));
         }
         if cap > sys.buflen {
-            self.ex.fail("C07:identity", format!("handle capacity {cap} exceeds the buffer length {}", sys.buflen));
+            fail(self.ex, &self.tainted, "C07:identity", format!("handle capacity {cap} exceeds the buffer length {}", sys.buflen));
         }
         // M3: content is the next part of what was sent to that source
         if let Some(si) = src
@@ -593,7 +597,7 @@ impl Runner<'_> {
                     skipped += 1;
                 }
                 if !found || (skipped > 0 && !s.lossy) {
-                    self.ex.fail(
+                    fail(self.ex, &self.tainted, 
                         "C07:content",
                         format!("datagram content does not match what was sent (found={found} skipped={skipped})"),
                     );
@@ -611,7 +615,7 @@ impl Runner<'_> {
                     p += 1;
                 }
                 if !found || (p != s.rpos && !s.lossy) {
-                    self.ex.fail(
+                    fail(self.ex, &self.tainted, 
                         "C07:content",
                         format!("stream content mismatch: found={found} at {p}, expected at {} lossy={}", s.rpos, s.lossy),
                     );
@@ -638,11 +642,11 @@ impl Runner<'_> {
         for (id, h) in &sys.held {
             let s = unsafe { std::slice::from_raw_parts(h.ptr as *const u8, h.cap) };
             if s.iter().any(|b| *b != h.canary) {
-                self.ex.fail("C07:canary", format!("buffer {id} held by the user was written by somebody else"));
+                fail(self.ex, &self.tainted, "C07:canary", format!("buffer {id} held by the user was written by somebody else"));
             }
         }
         if !guards_intact() {
-            self.ex.fail("C07:overrun", "bytes outside a pool buffer were written");
+            fail(self.ex, &self.tainted, "C07:overrun", "bytes outside a pool buffer were written");
         }
         if snap.dropped {
             return;
@@ -651,13 +655,13 @@ impl Runner<'_> {
         for id in sys.held.keys() {
             let i = *id as usize;
             if snap.slots.get(i).copied().unwrap_or(false) {
-                self.ex.fail("C07:owner", format!("buffer {id} is held by a handle but its slot is occupied"));
+                fail(self.ex, &self.tainted, "C07:owner", format!("buffer {id} is held by a handle but its slot is occupied"));
             }
             if snap.queue.contains(id) {
-                self.ex.fail("C07:owner", format!("buffer {id} is held by a handle and is in the free queue"));
+                fail(self.ex, &self.tainted, "C07:owner", format!("buffer {id} is held by a handle and is in the free queue"));
             }
             if snap.prov.contains(id) {
-                self.ex.fail("C07:owner", format!("buffer {id} is held by a handle and is provided to the kernel"));
+                fail(self.ex, &self.tainted, "C07:owner", format!("buffer {id} is held by a handle and is provided to the kernel"));
             }
         }
         // free / provided ids: slot present, no duplicates
@@ -666,26 +670,26 @@ impl Runner<'_> {
         for id in owned {
             let i = *id as usize;
             if i >= snap.slots.len() {
-                self.ex.fail("C07:owner", format!("id {id} out of range is owned by the pool"));
+                fail(self.ex, &self.tainted, "C07:owner", format!("id {id} out of range is owned by the pool"));
                 continue;
             }
             if seen[i] {
-                self.ex.fail(
+                fail(self.ex, &self.tainted, 
                     "C07:owner-dup",
                     format!("buffer {id} is {} twice", if sys.ring { "provided to the kernel" } else { "in the free queue" }),
                 );
             }
             seen[i] = true;
             if !snap.slots[i] {
-                self.ex.fail("C07:owner", format!("buffer {id} is owned by the pool/kernel but its slot is empty"));
+                fail(self.ex, &self.tainted, "C07:owner", format!("buffer {id} is owned by the pool/kernel but its slot is empty"));
             }
         }
         if sys.ring && snap.tail.wrapping_sub(snap.head) as usize > snap.ring_len {
-            self.ex.fail("C07:ring-overflow", format!("tail {} - head {} exceeds ring length {}", snap.tail, snap.head, snap.ring_len));
+            fail(self.ex, &self.tainted, "C07:ring-overflow", format!("tail {} - head {} exceeds ring length {}", snap.tail, snap.head, snap.ring_len));
         }
         for (i, p) in snap.slot_ptrs.iter().enumerate() {
             if snap.slots[i] && sys.ptrs.get(i) != Some(p) {
-                self.ex.fail("C07:identity", format!("slot {i} holds a pointer that is not buffer {i}"));
+                fail(self.ex, &self.tainted, "C07:identity", format!("slot {i} holds a pointer that is not buffer {i}"));
             }
         }
     }
@@ -723,7 +727,7 @@ impl Runner<'_> {
                     }
                     Err(e) => {
                         self.ex.tag(format!("unavailable:{kind}"));
-                        self.ex.fail("C07:harness", format!("cannot build the system: {e}"));
+                        fail(self.ex, &self.tainted, "C07:harness", format!("cannot build the system: {e}"));
                         "unavailable".into()
                     }
                 }
@@ -743,7 +747,7 @@ impl Runner<'_> {
                         self.finish_line("ok".into())
                     }
                     Err(e) => {
-                        self.ex.fail("C07:harness", format!("cannot create source {kind:?}: {e}"));
+                        fail(self.ex, &self.tainted, "C07:harness", format!("cannot create source {kind:?}: {e}"));
                         sys.srcs.push(None);
                         "unavailable".into()
                     }
@@ -769,7 +773,7 @@ impl Runner<'_> {
                     Tx::None => unreachable!(),
                 };
                 if let Err(e) = r {
-                    self.ex.fail("C07:harness", format!("write failed: {e}"));
+                    fail(self.ex, &self.tainted, "C07:harness", format!("write failed: {e}"));
                 }
                 if s.kind == SrcKind::Udp {
                     s.dgrams.push_back(data);
@@ -838,7 +842,7 @@ impl Runner<'_> {
                                     return self.finish_line(res);
                                 }
                                 if t0.elapsed() > Duration::from_secs(5) {
-                                    self.ex.fail("C07:hang", "a managed file read did not complete within 5 s");
+                                    fail(self.ex, &self.tainted, "C07:hang", "a managed file read did not complete within 5 s");
                                     return self.finish_line("pending".into());
                                 }
                             }
@@ -932,6 +936,16 @@ impl Runner<'_> {
                 drop(h);
                 self.finish_line("ok".into())
             }
+            ["dropn", k] => {
+                let Ok(k) = k.parse::<usize>() else { return "bad".into() };
+                let sys = self.sys.as_mut().unwrap();
+                if sys.held.is_empty() {
+                    return "bad".into();
+                }
+                let id = *sys.held.keys().nth(k % sys.held.len()).unwrap();
+                drop(sys.held.remove(&id));
+                self.finish_line("ok".into())
+            }
             ["pop"] => {
                 let sys = self.sys.as_mut().unwrap();
                 if sys.released {
@@ -954,7 +968,17 @@ impl Runner<'_> {
                 if sys.released {
                     return "bad".into();
                 }
+                let before = sys.snap();
                 let r = sys.pool.as_ref().unwrap().take(id);
+                if matches!(r, Ok(Some(_))) && (before.prov.contains(&id) || before.queue.contains(&id)) {
+                    let t = format!(
+                        "BufferPool::take({id}) handed out a buffer that is {}",
+                        if sys.ring { "provided to the kernel" } else { "in the free queue" }
+                    );
+                    self.ex.tag("raw:take-pool-owned");
+                    self.tainted = Some(t.clone());
+                    fail(self.ex, &None, "C07a:raw-take-of-pool-owned-id", t);
+                }
                 let res = match r {
                     Err(e) => format!("err {}", err_name(&e)),
                     Ok(None) => "none".to_string(),
@@ -968,12 +992,52 @@ impl Runner<'_> {
                 if sys.released {
                     return "bad".into();
                 }
+                let before = sys.snap();
                 let r = sys.pool.as_ref().unwrap().reset(id);
+                if matches!(r, Ok(true)) && (before.prov.contains(&id) || before.queue.contains(&id)) {
+                    let t = format!(
+                        "BufferPool::reset({id}) re-provided a buffer that is already {}",
+                        if sys.ring { "provided to the kernel" } else { "in the free queue" }
+                    );
+                    self.ex.tag("raw:reset-pool-owned");
+                    self.tainted = Some(t.clone());
+                    fail(self.ex, &None, "C07a:raw-take-of-pool-owned-id", t);
+                }
                 let res = match r {
                     Err(e) => format!("err {}", err_name(&e)),
                     Ok(b) => format!("{b}"),
                 };
                 self.finish_line(res)
+            }
+            ["spin", i, k] => {
+                let (Ok(i), Ok(k)) = (i.parse::<usize>(), k.parse::<usize>()) else { return "bad".into() };
+                if !self.src_ok(i) || k > 200000 {
+                    return "bad".into();
+                }
+                {
+                    let sys = self.sys.as_ref().unwrap();
+                    let s = sys.srcs[i].as_ref().unwrap();
+                    if s.kind != SrcKind::Pipe
+                        || s.fut.is_some()
+                        || s.strm.is_some()
+                        || matches!(s.tx, Tx::None)
+                        || s.rpos != s.sent.len()
+                    {
+                        return "bad".into();
+                    }
+                }
+                let is = i.to_string();
+                for _ in 0..k {
+                    self.op(&["write", &is, "1"]);
+                    self.op(&["read", &is, "1"]);
+                    let r = self.op(&["await", &is]);
+                    if let Some(rest) = r.strip_prefix("ready some ") {
+                        let id = rest.split(':').next().unwrap_or("").to_string();
+                        self.op(&["drop", &id]);
+                    }
+                }
+                self.ex.tag("spin");
+                self.finish_line("ok".into())
             }
             ["release"] => {
                 let sys = self.sys.as_mut().unwrap();
@@ -1018,6 +1082,18 @@ impl Runner<'_> {
     }
 }
 
+/// route a monitor failure: once a case has taken a pool-owned buffer through the raw API (finding C07a),
+/// everything that follows is a consequence of that and is reported under its signature
+fn fail(ex: &mut Exec, tainted: &Option<String>, sig: &str, detail: impl Into<String>) {
+    let detail = detail.into();
+    match tainted {
+        Some(t) if sig != "C07:harness" => {
+            ex.fail("C07a:raw-take-of-pool-owned-id", format!("{t}; consequence: [{sig}] {detail}"))
+        }
+        _ => ex.fail(sig, detail),
+    }
+}
+
 fn panic_name(p: &str) -> &'static str {
     if p.contains("Buffer should be available") {
         "unavailable"
@@ -1033,14 +1109,34 @@ fn exec(case: &Case) -> Exec {
     let trace = std::env::var("C07_TRACE").is_ok();
     let mut out = vec![];
     {
-        let mut r = Runner { sys: None, ex: &mut ex, trace };
+        let mut r = Runner { sys: None, ex: &mut ex, trace, poisoned: false, tainted: None };
         for line in &case.lines {
             let w: Vec<&str> = line.split_whitespace().collect();
-            let o = match catch(|| r.op(&w)) {
-                Ok(o) => o,
-                Err(p) => {
-                    r.ex.fail("C07:panic", format!("operation `{line}` panicked: {p}"));
-                    format!("panic {}", panic_name(&p))
+            let o = if r.poisoned {
+                "dead".to_string()
+            } else {
+                match catch(|| r.op(&w)) {
+                    Ok(o) => o,
+                    Err(p) => {
+                        let name = panic_name(&p);
+                        r.ex.tag(format!("panic:{name}"));
+                        if name == "unavailable" {
+                            // `BufferPool::pop`: "Buffer should be available" -- the pool stays usable
+                            fail(r.ex, &r.tainted, "C07:panic", format!("operation `{line}` panicked: {p}"));
+                            match catch(|| r.finish_line(format!("panic {name}"))) {
+                                Ok(o) => o,
+                                Err(_) => {
+                                    r.poisoned = true;
+                                    format!("panic {name}")
+                                }
+                            }
+                        } else {
+                            // a panic inside the driver: nothing can be trusted afterwards
+                            fail(r.ex, &r.tainted, "C07:panic", format!("operation `{line}` panicked: {p}"));
+                            r.poisoned = true;
+                            format!("panic {name}")
+                        }
+                    }
                 }
             };
             if r.trace {
@@ -1058,6 +1154,11 @@ fn exec(case: &Case) -> Exec {
 impl Runner<'_> {
     /// end of case: conservation monitors
     fn teardown(&mut self) {
+        if self.poisoned {
+            // the driver panicked half-way through a completion: do not run its destructors
+            std::mem::forget(self.sys.take());
+            return;
+        }
         let Some(sys) = self.sys.as_mut() else { return };
         if !sys.released {
             // drop all futures and streams, then all handles
@@ -1076,7 +1177,7 @@ impl Runner<'_> {
             owned.sort();
             let all: Vec<u16> = (0..n as u16).collect();
             if owned != all || snap.slots.iter().any(|b| !*b) {
-                self.ex.fail(
+                fail(self.ex, &self.tainted, 
                     "C07:conservation",
                     format!("after dropping every handle, future and stream the pool owns {:?} of {n} buffers, slots {:?}", owned, snap.slots),
                 );
@@ -1093,13 +1194,13 @@ impl Runner<'_> {
         ALLOC.with(|a| {
             let a = a.borrow();
             if a.allocs != a.deallocs || !a.live.is_empty() {
-                self.ex.fail(
+                fail(self.ex, &self.tainted, 
                     "C07:alloc-balance",
                     format!("{} buffers allocated, {} deallocated, {} still live after everything was dropped", a.allocs, a.deallocs, a.live.len()),
                 );
             }
             for e in &a.errors {
-                self.ex.fail("C07:alloc", e.clone());
+                fail(self.ex, &self.tainted, "C07:alloc", e.clone());
             }
         });
         self.sys = None;
@@ -1129,7 +1230,7 @@ impl Runner<'_> {
             ptrs.sort();
             ptrs.dedup();
             if got.len() != n || ptrs.len() != n || err.as_deref() != Some("busy") {
-                self.ex.fail(
+                fail(self.ex, &self.tainted, 
                     "C07:shrink",
                     format!("fallback pool of {n}: {} buffers obtainable ({} distinct), then {:?}", got.len(), ptrs.len(), err),
                 );
@@ -1158,7 +1259,7 @@ impl Runner<'_> {
             sys.rt().enter(|| drop(fut));
             match res {
                 None => {
-                    self.ex.fail("C07:hang", format!("read {k} of the obtainable-count probe did not finish within 200 polls"));
+                    fail(self.ex, &self.tainted, "C07:hang", format!("read {k} of the obtainable-count probe did not finish within 200 polls"));
                     break;
                 }
                 Some(Ok(Some(b))) => got.push(b),
@@ -1170,7 +1271,7 @@ impl Runner<'_> {
         ptrs.sort();
         ptrs.dedup();
         if got.len() != n || ptrs.len() != n || last.as_deref() != Some("busy") {
-            self.ex.fail(
+            fail(self.ex, &self.tainted, 
                 "C07:shrink",
                 format!("ring pool of {n}: {} buffers obtainable ({} distinct), then {:?}", got.len(), ptrs.len(), last),
             );
@@ -1185,18 +1286,269 @@ impl Runner<'_> {
 // generator
 // ---------------------------------------------------------------------------------------------
 
+const KINDS: [&str; 5] = ["pipe", "tcp", "unix", "udp", "file"];
+
+struct GSrc {
+    kind: &'static str,
+    fut: bool,
+    strm: bool,
+    closed: bool,
+    data: bool,
+}
+
+/// one structure-aware random program: mostly valid operations chosen with a rough idea of the state
+fn gen_program(rng: &mut Rng, kind: &str, n: u64, len: u64, n_ops: usize) -> Vec<String> {
+    let mut lines = vec![format!("init {kind} {n} {len}")];
+    let ns = rng.range(1, 4) as usize;
+    let mut srcs: Vec<GSrc> = vec![];
+    for i in 0..ns {
+        let k = if rng.chance(1, 8) { "file" } else { *rng.pick(&KINDS[..4]) };
+        let size = if k == "file" { rng.range(0, 3 * len) } else { 0 };
+        lines.push(format!("src {i} {k} {size}"));
+        srcs.push(GSrc { kind: k, fut: false, strm: false, closed: false, data: false });
+    }
+    let lens = [0, 0, 0, 1, len / 2, len, len + 5, 3];
+    let mut released = false;
+    for _ in 0..n_ops {
+        let i = rng.below(ns as u64) as usize;
+        let s = &mut srcs[i];
+        let r = rng.below(100);
+        if released {
+            // after the runtime is gone only handles remain
+            if r < 80 {
+                lines.push(format!("dropn {}", rng.below(16)));
+            } else {
+                lines.push(format!("write {i} 1"));
+            }
+            continue;
+        }
+        if s.kind == "file" {
+            if r < 60 {
+                let size = 3 * len;
+                lines.push(format!("readat {i} {} {}", rng.pick(&lens), rng.below(size + 4)));
+            } else {
+                lines.push(format!("dropn {}", rng.below(16)));
+            }
+            continue;
+        }
+        if r < 22 {
+            if !s.closed {
+                let k = if rng.chance(1, 3) { rng.range(1, 3 * len) } else { rng.range(1, len + 2) };
+                lines.push(format!("write {i} {}", k.min(1024)));
+                s.data = true;
+            }
+        } else if r < 34 {
+            if !s.fut && !s.strm {
+                lines.push(format!("read {i} {}", rng.pick(&lens)));
+                s.fut = true;
+            } else if s.fut {
+                lines.push(format!("await {i}"));
+                if s.data || s.closed {
+                    s.fut = false;
+                    s.data = rng.chance(1, 2);
+                }
+            }
+        } else if r < 44 {
+            if s.fut {
+                lines.push(format!("await {i}"));
+                if s.data || s.closed {
+                    s.fut = false;
+                    s.data = rng.chance(1, 2);
+                }
+            }
+        } else if r < 49 {
+            if s.fut {
+                lines.push(format!("cancel {i}"));
+                s.fut = false;
+            }
+        } else if r < 57 {
+            if !s.fut && !s.strm {
+                lines.push(format!("open {i} {}", rng.pick(&lens)));
+                s.strm = true;
+            }
+        } else if r < 77 {
+            if s.strm {
+                lines.push(format!("next {i}"));
+                if rng.chance(1, 3) {
+                    s.data = false;
+                }
+            }
+        } else if r < 82 {
+            if s.strm {
+                lines.push(format!("dstream {i}"));
+                s.strm = false;
+            }
+        } else if r < 95 {
+            lines.push(format!("dropn {}", rng.below(16)));
+        } else if r < 97 {
+            if !s.closed && s.kind != "udp" {
+                lines.push(format!("close {i}"));
+                s.closed = true;
+            }
+        } else if r < 98 {
+            if kind == "fb" {
+                lines.push("pop".to_string());
+            }
+        } else if r < 99 {
+            if rng.chance(1, 3) {
+                lines.push("release".to_string());
+                released = true;
+            }
+        } else {
+            // an invalid / out-of-range operation now and then
+            match rng.below(4) {
+                0 => lines.push(format!("await {}", rng.below(10))),
+                1 => lines.push(format!("take {}", 64 + rng.below(10))),
+                2 => lines.push(format!("reset {}", 64 + rng.below(10))),
+                _ => lines.push(format!("next {}", rng.below(10))),
+            }
+        }
+    }
+    lines
+}
+
+/// hold every buffer, then show that exhaustion is an error and that a returned buffer is usable again
+fn gen_exhaust(rng: &mut Rng, kind: &str, n: u64, len: u64) -> Vec<String> {
+    let sk = *rng.pick(&KINDS[..4]);
+    let mut lines = vec![format!("init {kind} {n} {len}"), format!("src 0 {sk} 0"), "src 1 pipe 0".to_string()];
+    let np = n.next_power_of_two();
+    let multi = rng.chance(1, 2);
+    if multi {
+        lines.push("open 0 1".into());
+        lines.push("next 0".into());
+        for _ in 0..np + 1 {
+            lines.push("write 0 1".into());
+        }
+        for _ in 0..np + 2 {
+            lines.push("next 0".into());
+        }
+    } else {
+        for _ in 0..np + 1 {
+            lines.push("write 0 1".into());
+            lines.push("read 0 1".into());
+            lines.push("await 0".into());
+        }
+    }
+    lines.push("write 1 3".into());
+    lines.push("read 1 0".into());
+    lines.push("await 1".into());
+    lines.push(format!("dropn {}", rng.below(16)));
+    lines.push("read 1 0".into());
+    lines.push("await 1".into());
+    lines.push("next 0".into());
+    lines.push("next 0".into());
+    if rng.chance(1, 2) {
+        lines.push("release".into());
+    }
+    for _ in 0..np {
+        lines.push(format!("dropn {}", rng.below(16)));
+    }
+    lines
+}
+
+/// the u16 tail of the ring wraps around while buffers are held and streams are open
+fn gen_wrap(rng: &mut Rng, n: u64, len: u64) -> Vec<String> {
+    let mut lines = vec![format!("init ring {n} {len}"), "src 0 pipe 0".to_string(), "src 1 pipe 0".to_string()];
+    let np = n.next_power_of_two();
+    // hold a few buffers across the wrap
+    let hold = rng.below(np);
+    for _ in 0..hold {
+        lines.push("write 1 1".into());
+        lines.push("read 1 1".into());
+        lines.push("await 1".into());
+    }
+    let before = 65536 - np - rng.below(2 * np + 2);
+    lines.push(format!("spin 0 {before}"));
+    let mut p = gen_program(rng, "ring", n, len, 40);
+    p.drain(..1);
+    // keep only operations on sources 0 and 1 that exist here
+    for l in p {
+        if l.starts_with("src ") {
+            continue;
+        }
+        let w: Vec<&str> = l.split_whitespace().collect();
+        let ok = match w[0] {
+            "dropn" | "pop" | "take" | "reset" => true,
+            "release" => false,
+            _ => w.get(1).and_then(|x| x.parse::<u64>().ok()).is_some_and(|x| x < 2),
+        };
+        if ok && !l.starts_with("readat") {
+            lines.push(l);
+        }
+    }
+    lines
+}
+
+/// the raw `take` / `reset` API applied to buffers the pool still owns (finding C07a)
+fn gen_raw(rng: &mut Rng, kind: &str, n: u64, len: u64) -> Vec<String> {
+    let mut lines = vec![format!("init {kind} {n} {len}"), "src 0 pipe 0".to_string()];
+    let np = n.next_power_of_two();
+    let id = rng.below(np);
+    match rng.below(3) {
+        0 => {
+            lines.push(format!("take {id}"));
+            lines.push(format!("dropn 0"));
+            for _ in 0..np + 1 {
+                lines.push(if kind == "fb" { "pop".to_string() } else { "write 0 1".to_string() });
+                if kind == "ring" {
+                    lines.push("read 0 1".into());
+                    lines.push("await 0".into());
+                }
+            }
+        }
+        1 => {
+            lines.push(format!("reset {id}"));
+            for _ in 0..np + 1 {
+                lines.push(if kind == "fb" { "pop".to_string() } else { "write 0 1".to_string() });
+                if kind == "ring" {
+                    lines.push("read 0 1".into());
+                    lines.push("await 0".into());
+                }
+            }
+        }
+        _ => {
+            // hold a pool-owned buffer while the kernel / the free queue hands it out again
+            lines.push("take 0".into());
+            lines.push("write 0 4".into());
+            lines.push("read 0 0".into());
+            lines.push("await 0".into());
+        }
+    }
+    lines
+}
+
 fn generate(tier: &str, rng: &mut Rng) -> Vec<Case> {
-    let n_cases = if tier == "thorough" { 20 } else { 4 };
+    let thorough = tier == "thorough";
     let mut cases = vec![];
-    for c in 0..n_cases {
-        let kind = if rng.chance(1, 2) { "ring" } else { "fb" };
+    let n_random = if thorough { 40000 } else { 2500 };
+    let lens = [8u64, 16, 32, 64, 1, 3, 24];
+    for c in 0..n_random {
+        let kind = if c % 2 == 0 { "ring" } else { "fb" };
         let n = rng.range(1, 16);
-        let len = *rng.pick(&[8u64, 16, 32, 64]);
-        let mut lines = vec![format!("init {kind} {n} {len}"), "src 0 pipe 0".to_string()];
-        lines.push("write 0 20".into());
-        lines.push("read 0 0".into());
-        lines.push("await 0".into());
-        cases.push(Case { name: format!("g{c}"), lines });
+        let len = *rng.pick(&lens);
+        let n_ops = rng.range(8, if thorough { 90 } else { 60 }) as usize;
+        cases.push(Case { name: format!("rand-{kind}-{c}"), lines: gen_program(rng, kind, n, len, n_ops) });
+    }
+    // exhaustion for every pool size, both pools
+    for n in 1..=16u64 {
+        for kind in ["ring", "fb"] {
+            for rep in 0..(if thorough { 6 } else { 1 }) {
+                let len = *rng.pick(&lens);
+                cases.push(Case { name: format!("exhaust-{kind}-{n}-{rep}"), lines: gen_exhaust(rng, kind, n, len) });
+            }
+        }
+    }
+    // u16 wrap-around of the ring tail
+    let wraps: Vec<u64> = if thorough { (1..=16).collect() } else { vec![3, 16] };
+    for n in wraps {
+        let len = *rng.pick(&lens[..4]);
+        cases.push(Case { name: format!("wrap-{n}"), lines: gen_wrap(rng, n, len) });
+    }
+    // raw API on pool-owned buffers
+    for c in 0..(if thorough { 60 } else { 12 }) {
+        let kind = if c % 2 == 0 { "ring" } else { "fb" };
+        let n = rng.range(1, 8);
+        cases.push(Case { name: format!("raw-{kind}-{c}"), lines: gen_raw(rng, kind, n, 8) });
     }
     cases
 }
